@@ -60,6 +60,15 @@ func c01Round2(c *Ctx) {
 	for _, f := range pgpLengthThresholds(p) {
 		c.Check(f.OK, "R01j", f.Key, f.Pos, "", f.Detail)
 	}
+	c.Rule("R01k", "a table header loaded from an object is not written through after a call that may grow and reassign that table", 1)
+	for _, f := range staleSliceHeaders(p) {
+		c.Check(f.OK, "R01k", f.Key, f.Pos, "no element store through the earlier header", f.Detail)
+	}
+	c.runControl("R01k stale slice header control (ctl/stale.Add)", "stale.Doc).Add:", staleSliceHeaders)
+	c.Rule("R01l", "signdeb.Sign leaves every _gpg* member out of what the new signature lists (shared with C08 R08b)", 1)
+	for _, f := range debSkipsSignatureMembers(p) {
+		c.Check(f.OK, "R01l", f.Key, f.Pos, "", f.Detail)
+	}
 }
 
 func onePassCopies(p *Prog) (out []gFinding) {
